@@ -38,8 +38,15 @@ func clean(s string) string { return cleaner.Replace(s) }
 // node-like interface and pointer types: tree nodes of ANTLR / go/ast are ids (Int) with uninterpreted structure.
 func isNodeType(t types.Type) bool {
 	s := t.String()
-	return strings.Contains(s, "antlr4/runtime/Go/antlr") || strings.HasPrefix(s, "go/ast.") || strings.HasPrefix(s, "*go/ast.") ||
+	return strings.Contains(s, "antlr4/runtime/Go/antlr") ||
 		strings.Contains(s, "/languages/") || strings.HasPrefix(s, "go/token.")
+}
+
+// go/ast nodes are plain data: structs with exported fields, reached through pointers and the Expr / Stmt / Node
+// interfaces. They are modelled like the repository's own structs (fields transparent, one heap per struct type).
+func isGoAst(t types.Type) bool {
+	s := t.String()
+	return strings.HasPrefix(s, "go/ast.") || strings.HasPrefix(s, "*go/ast.")
 }
 
 // plain data structs of other modules whose fields the repository reads and writes
@@ -63,7 +70,7 @@ func (s *sorts) of(t types.Type) string {
 			}
 			return "Int"
 		}
-		if _, ok := u.Underlying().(*types.Struct); ok && u.Obj().Pkg() != nil && !strings.HasPrefix(u.Obj().Pkg().Path(), modPath) && !transparentExt[u.Obj().Pkg().Path()+"."+u.Obj().Name()] {
+		if _, ok := u.Underlying().(*types.Struct); ok && u.Obj().Pkg() != nil && !strings.HasPrefix(u.Obj().Pkg().Path(), modPath) && !transparentExt[u.Obj().Pkg().Path()+"."+u.Obj().Name()] && u.Obj().Pkg().Path() != "go/ast" {
 			// struct types of other modules / the standard library are opaque values
 			return s.opq(u.Obj().Pkg().Name() + "_" + u.Obj().Name())
 		}
